@@ -13,7 +13,7 @@ os.environ.setdefault("MPLBACKEND", "Agg")      # spectroscopic.py imports matpl
 import numpy as np
 from hypothesis import strategies as st
 
-from ..core import Machine
+from ..core import Machine, Enum
 from ..findings import is_open
 
 from raysect.core import Node, Point3D, Vector3D, translate  # noqa: E402
@@ -87,6 +87,11 @@ RULE = ("Hypothesis RuleBasedStateMachine (20/30 steps) parameterised by the gro
         "group in which not all members hold it (after per-member sequences, added default-built members, or the `edit` rule "
         "= direct member.attr = v); a sequence is, with probability 1/4, the members' current values except one element; "
         "finish() does this for every attribute (first member's value; last member edited directly, then its value). "
+        "Sub-check `large` (enumerated, deterministic): every group class with 255, 256, 257, 300 and 1000 cheap default-built "
+        "members (constructor list / tuple, add loop, member-list setter; BolometerCamera 257 and 1000 foils): int / name / "
+        "slice lookup and iteration at large indices, observe(), and for every broadcast attribute list / tuple / ndarray of "
+        "exactly the group length (read back member by member), length n-1 and n+1 (ValueError, nothing changed) and a "
+        "scalar; every such case counts as non-trivial. "
         "Non-trivial: a history in which a sequence with at least two different values was assigned element-wise to a "
         "group of size >= 2 and read back, and at least one wrong-length assignment was attempted after a successful "
         "assignment; for BolometerCamera (no broadcast attributes): size >= 2 at an observe(), a by-name lookup and a "
@@ -1505,6 +1510,222 @@ for _alias, _target in (("edit_b", "edit"), ("assign_b", "assign"), ("assign_c",
     setattr(Hist, "pre_" + _alias, getattr(Hist, "pre_" + _target))
 
 
+# ------------------------------------------------------------------------------------------------ large groups
+# Deterministic pass over group sizes around and beyond CPython's small-int cache (-5..256) and other size cliffs: every
+# broadcast attribute of every class gets list / tuple / ndarray of exactly the group length (accepted, read back member by
+# member), of length n-1 and n+1 (ValueError, nothing changed) and a scalar.  One set of n cheap members (no world, default
+# pipelines) is built per case and re-used for all attributes.
+LARGE_SIZES = [255, 256, 257, 300, 1000]
+
+
+def large_cases(tier):
+    out = []
+    for gi, g in enumerate(GROUP_NAMES):
+        for si, n in enumerate(LARGE_SIZES):
+            if g == "BolometerCamera" and n not in (257, 1000):
+                continue
+            out.append({"group": g, "n": n, "build": ["ctor_list", "add", "ctor_tuple", "setter"][(gi + si) % 4]})
+    return out
+
+
+def _large_seq(attr, n, salt, shared):
+    """n valid element values for fresh (default) members; `salt` makes successive assignments differ."""
+    kind = SPECS[attr].kind
+    J = range(n)
+    if attr == "names":
+        return ["m%d_%d" % (salt, j) for j in J]
+    if kind == "engine":
+        return [SerialEngine() for _ in J]
+    if kind == "pipelines":
+        return [[(SpectralRadiancePipeline0D if (j + salt) % 2 else PowerPipeline0D)(accumulate=False)] for j in J]
+    if kind == "targets":
+        return [[shared["sphere"], Sphere()] if (j + salt) % 2 else [Sphere()] for j in J]
+    if kind == "point":
+        return [Point3D(0.001 * j, float(salt), -1.0) for j in J]
+    if kind == "vector":
+        return [Vector3D(1.0 + 0.001 * j, 0.5, 0.1 + 0.25 * salt) for j in J]
+    if kind in ("bool", "ppflag"):
+        return [(j + salt) % 3 == 0 for j in J]
+    table = {
+        "spectral_bins": lambda j: 20 + (j + salt) % 50, "spectral_rays": lambda j: 1 + (j + salt) % 5,
+        "ray_max_depth": lambda j: (j + 7 * salt) % 300, "ray_extinction_min_depth": lambda j: (j + salt) % 7,
+        "pixel_samples": lambda j: 1 + j + salt, "samples_per_task": lambda j: 1 + (3 * j + salt) % 1000,
+        "min_wavelength": lambda j: 100.0 + 0.1 * j + salt, "max_wavelength": lambda j: 900.0 + 0.01 * j + salt,
+        "ray_extinction_prob": lambda j: ((j + salt) % 101) / 100.0, "ray_important_path_weight": lambda j: ((j + 3 * salt) % 101) / 100.0,
+        "targetted_path_prob": lambda j: ((2 * j + salt) % 101) / 100.0, "sensitivity": lambda j: 0.5 + 0.01 * j + salt,
+        "acceptance_angle": lambda j: 1.0 + ((j + salt) % 890) / 10.0, "radius": lambda j: 1e-3 * (1 + j) + 1e-4 * salt,
+        "x_width": lambda j: 2e-3 * (1 + j) + 1e-4 * salt, "y_width": lambda j: 3e-3 * (1 + j) + 1e-4 * salt,
+    }
+    return [table[attr](j) for j in J]
+
+
+def _large_scalar(attr, shared):
+    kind = SPECS[attr].kind
+    if kind == "engine":
+        return SerialEngine()
+    if kind == "targets":
+        return [shared["sphere"]]
+    if kind == "point":
+        return Point3D(1.5, -2.5, 3.5)
+    if kind == "vector":
+        return Vector3D(0.0, 3.0, 4.0)
+    if kind in ("bool", "ppflag"):
+        return True
+    return {"spectral_bins": 60, "spectral_rays": 1, "ray_max_depth": 257, "ray_extinction_min_depth": 2, "pixel_samples": 1000,
+            "samples_per_task": 257, "min_wavelength": 50.0, "max_wavelength": 2000.0, "ray_extinction_prob": 0.25,
+            "ray_important_path_weight": 0.75, "targetted_path_prob": 1.0, "sensitivity": 2.5, "acceptance_angle": 90.0,
+            "radius": 0.125, "x_width": 0.375, "y_width": 0.625}[attr]
+
+
+def _large_model(attr, v):
+    """what a member must report after `member.attr = v`, except for the per-pipeline flags (computed from the member)."""
+    kind = SPECS[attr].kind
+    if kind in ("pipelines", "targets"):
+        return tuple(v)
+    if kind == "point":
+        return (v.x, v.y, v.z)
+    if kind == "vector":
+        w = v.normalise()
+        return (w.x, w.y, w.z)
+    return v
+
+
+def run_large(case, ctx):
+    gname, n = case["group"], int(case["n"])
+    cls, mtype = GROUPS[gname]
+    is_camera = gname == "BolometerCamera"
+    ctx.label("class:" + gname, "n:%d" % n, "build:" + case["build"])
+    ctx.nt(True)
+    shared = {"sphere": Sphere()}
+    # ---- members (cheap: no world, constructor defaults) and group
+    if is_camera:
+        with ctx.cut("construct"):
+            g = cls(name="camera")
+        slit = BolometerSlit("slit", Point3D(0, 0, 0), Vector3D(1, 0, 0), 0.0025, Vector3D(0, 1, 0), 0.005, parent=g)
+        members = [OBS_CLS["foil"]("f%d" % j, Point3D(1e-5 * j, 0, -0.08), Vector3D(1, 0, 0), 0.0025, Vector3D(0, 1, 0), 0.005, slit)
+                   for j in range(n)]
+        with ctx.cut("add"):
+            if case["build"] == "setter":
+                g.foil_detectors = list(members)
+            else:
+                for m in members:
+                    g.add_foil_detector(m)
+    else:
+        kind = [k for k in accepted_kinds(gname) if OBS_BASE[k] is mtype][0]
+        C = OBS_CLS[kind]
+        members = [C([shared["sphere"]], name="f%d" % j) if kind == "targettedpixel" else C(name="f%d" % j) for j in range(n)]
+        with ctx.cut("construct"):
+            if case["build"] == "ctor_list":
+                g = cls(name="group", observers=list(members))
+            elif case["build"] == "ctor_tuple":
+                g = cls(name="group", observers=tuple(members))
+            elif case["build"] == "setter":
+                g = cls(name="group")
+                g.observers = list(members)
+            else:
+                g = cls(name="group")
+                for m in members:
+                    g.add_observer(m)
+
+    def check_members(what):
+        with ctx.cut("members"):
+            real = tuple(g.foil_detectors) if is_camera else tuple(g.observers)
+            ln = len(g)
+        ctx.check(ln == n and len(real) == n and all(a is b for a, b in zip(real, members)), "large:members",
+                  lambda: "%s of %d: group holds %d members / len %d (%s)" % (gname, n, len(real), ln, what))
+        ctx.check(all(m.parent is g for m in members), "large:parent", "%s of %d: a member's parent is not the group (%s)" % (gname, n, what))
+
+    check_members("after construction")
+    # ---- retrieval at large indices
+    with ctx.cut("index"):
+        got = [g[0], g[n - 1], g[-1], g[254], g[-n], g["f%d" % (n - 1)], g["f254"]]
+        it = list(g)
+    want = [members[0], members[n - 1], members[n - 1], members[254], members[0], members[n - 1], members[254]]
+    ctx.check(all(a is b for a, b in zip(got, want)), "large:index", "%s of %d: int / name lookup returned a wrong member" % (gname, n))
+    ctx.check(len(it) == n and all(a is b for a, b in zip(it, members)), "large:iterate", "%s of %d: iteration differs from the members" % (gname, n))
+    ctx.raises((IndexError,), "large:index", g.__getitem__, n)
+    if not is_camera:
+        with ctx.cut("index"):
+            sl = g[250:n:3]
+        ctx.check(len(sl) == len(members[250:n:3]) and all(a is b for a, b in zip(sl, members[250:n:3])), "large:slice",
+                  "%s of %d: slice differs" % (gname, n))
+    with ctx.cut("observe"):
+        g.observe()
+    ctx.check(all(getattr(m, "vf_observed", 0) == 1 for m in members), "large:observe", "%s of %d: not every member observed exactly once" % (gname, n))
+    if is_camera:
+        with ctx.cut("replace-members"):
+            g.foil_detectors = list(reversed(members))
+        members.reverse()
+        check_members("after foil_detectors = reversed list")
+        return
+    # ---- every broadcast attribute
+    props = class_properties(cls)
+    attrs = [a for a in sorted(set(props) | set(DOCUMENTED[gname])) if a in SPECS]
+
+    def expected(attr, model_vals):
+        kind = SPECS[attr].kind
+        if kind != "ppflag":
+            return model_vals
+        out = []
+        for m, v in zip(members, model_vals):
+            if attr == "display_progress":
+                out.append([v if isinstance(p, SpectralPowerPipeline0D) else None for p in m.pipelines])
+            else:
+                out.append([v if isinstance(p, (PowerPipeline0D, SpectralPowerPipeline0D)) else None for p in m.pipelines])
+        return out
+
+    def check_attr(attr, model_vals, what):
+        kind = SPECS[attr].kind
+        want = expected(attr, model_vals)
+        mattr = SPECS[attr].member_attr or attr
+        with ctx.cut("large:read:%s.%s" % (gname, attr)):
+            got = [getattr(m, mattr) for m in members]
+            lst = getattr(g, attr)
+        bad = [j for j in range(n) if not Hist._same(kind, got[j], want[j])]
+        ctx.check(not bad, "large:member:%s.%s" % (gname, attr),
+                  lambda: "group of %d, %s: member %d has %s = %s, expected %s (%d members differ)"
+                  % (n, what, bad[0], attr, Hist._show(got[bad[0]]), Hist._show(want[bad[0]]), len(bad)))
+        ok = isinstance(lst, (list, tuple)) and len(lst) == n and all(Hist._same(kind, a, b) for a, b in zip(lst, want))
+        ctx.check(ok, "large:getter:%s.%s" % (gname, attr), lambda: "group of %d, %s: group.%s does not return the members' values in order" % (n, what, attr))
+
+    salt = 0
+    for attr in attrs:
+        spec = SPECS[attr]
+        what = "%s.%s" % (gname, attr)
+        kinds = ["list", "tuple"] + (["ndarray"] if spec.numeric and setter_names_ndarray(props.get(attr)) else [])
+        model_vals = None
+        for kind in kinds:
+            salt += 1
+            vals = _large_seq(attr, n, salt, shared)
+            if kind == "ndarray":
+                seq = np.array(vals, dtype={"int": np.int64, "float": np.float64}.get(spec.kind, np.bool_))
+            elif kind == "tuple":
+                seq = tuple(vals)
+            else:
+                seq = list(vals)
+            with ctx.cut("large:assign-%s:%s" % (kind, what)):
+                setattr(g, attr, seq)
+            model_vals = [_large_model(attr, v) for v in vals]
+            check_attr(attr, model_vals, "%s of exactly group length" % kind)
+            ctx.label("seq:%s.%s" % (gname, attr), "kind:" + kind)
+        for i, L in enumerate((n - 1, n + 1)):
+            salt += 1
+            vals = _large_seq(attr, L, salt, shared)
+            kind = kinds[(i + len(attr)) % len(kinds)]
+            seq = np.array(vals, dtype={"int": np.int64, "float": np.float64}.get(spec.kind, np.bool_)) if kind == "ndarray" else \
+                (tuple(vals) if kind == "tuple" else vals)
+            ctx.raises((ValueError,), "large:wrong-length:" + what, setattr, g, attr, seq)
+            check_attr(attr, model_vals, "after a rejected %s of length %d" % (kind, L))
+            ctx.label("wrong:" + ("n-1" if L < n else "n+1"))
+        if spec.scalar_ok:
+            v = _large_scalar(attr, shared)
+            with ctx.cut("large:assign-scalar:" + what):
+                setattr(g, attr, v)
+            check_attr(attr, [_large_model(attr, v)] * n, "scalar")
+            ctx.label("scalar:%s.%s" % (gname, attr))
+    check_members("after all assignments")
+
+
 def _required():
     out = []
     for g in GROUP_NAMES:
@@ -1544,11 +1765,23 @@ def _required():
             "hist:heldscalar:first", "hist:heldscalar:last", "hist:heldscalar:middle", "hist:seq:current_except_one", "hist:member_edit"]
     if "member:irvb" not in excluded_for("BolometerCamera"):
         out.append("hist:member:irvb")
+    # large groups
+    for n in LARGE_SIZES:
+        out.append("large:n:%d" % n)
+    for g in GROUP_NAMES:
+        out.append("large:class:" + g)
+        for a in DOCUMENTED[g]:
+            out.append("large:seq:%s.%s" % (g, a))
+            if SPECS[a].scalar_ok:
+                out.append("large:scalar:%s.%s" % (g, a))
+    out += ["large:kind:list", "large:kind:tuple", "large:kind:ndarray", "large:wrong:n-1", "large:wrong:n+1",
+            "large:build:ctor_list", "large:build:ctor_tuple", "large:build:add", "large:build:setter"]
     return out
 
 
 REQUIRED_LABELS = _required()
 
 SUBCHECKS = {
+    "large": Enum(large_cases, run_large),
     "hist": Machine(Hist, quick=1600, thorough=16000, steps=(20, 30), params=hist_params),
 }
